@@ -16,6 +16,15 @@ pub struct Case {
     /// a second offset applied to the value that already carries `off` (two-step history)
     #[serde(default)]
     pub off2: i32,
+    /// carry the offset as `Offset::Local` under an injected zone file whose only offset is `off`
+    /// and a pinned clock (0 = no; otherwise the pinned Unix time)
+    #[serde(default)]
+    pub local_now: i64,
+}
+
+/// a version-1 TZif file with one local time type `off` in force since 1901
+pub fn fixed_zone_bytes(off: i32) -> Vec<u8> {
+    crate::tzsyn::Synth { version: 1, types: vec![(off, false)], transitions: vec![(i32::MIN as i64, 0)], v1_populated: true, footer: None, indicators: false, leaps: 0 }.build()
 }
 
 pub fn fmt_year4(y: i64) -> String {
@@ -120,7 +129,8 @@ impl Prop for DtOffset {
             2 => off,
             _ => gen::offset(u)?,
         };
-        Ok(Case { i, off, off2 })
+        let local_now = if u.coin(1, 6)? { u.range_i64(-2_000_000_000, 16_000_000_000)?.max(1) } else { 0 };
+        Ok(Case { i, off, off2, local_now })
     }
     fn check(c: &Case, cx: &mut Cx) -> Verdict {
         if !c.i.valid() || c.off.abs() > 86_399 || c.off2.abs() > 86_399 {
@@ -131,8 +141,23 @@ impl Prop for DtOffset {
         }
         let i = c.i.i();
         classify(i, c.off, cx);
-        let o = Offset::Fixed(c.off);
+        let mut o = Offset::Fixed(c.off);
+        let zone = fixed_zone_bytes(c.off);
+        if c.local_now != 0 {
+            // Offset::Local is an offset too: with a zone file whose offset is `off` everything
+            // stated for Fixed(off) holds for it
+            let ok = crate::model::tz::read(&zone).ok().and_then(|z| z.offset_at(c.local_now)) == Some(c.off);
+            if !ok || !(-2_100_000_000..=16_700_000_000i64).contains(&c.local_now) {
+                return Verdict::Skip("malformed case");
+            }
+            cx.nt("offset_carried_as_Offset::Local");
+            o = Offset::Local;
+        }
         let r = catch(|| {
+            if c.local_now != 0 {
+                astrolabe::verif::set_localtime(Some(Ok(zone.clone())));
+                astrolabe::verif::set_now(Some(DateTime::from_timestamp(c.local_now)));
+            }
             let v = mk_dt_off_any(i, 0);
             let w = v.set_offset(o);
             let zeros = (
@@ -161,6 +186,8 @@ impl Prop for DtOffset {
             }
             (observe(&v), observe(&w), v == w, v.cmp(&w), w.cmp(&v), zeros, w.duration_between(&v).as_nanos(), observe(&x), rd_dt(&x), rd_dt(&w), observe(&w2), rd_dt(&w2), (rd_dt(&y1), y1.get_offset(), rd_dt(&y2), y2.get_offset()))
         });
+        astrolabe::verif::set_localtime(None);
+        astrolabe::verif::set_now(None);
         let (ov, ow, eq, c1, c2, zeros, dur, ox, ix, iw, ow2, iw2, ys) = match r {
             Ok(v) => v,
             Err(p) => return fail("c10.dt_panic", format!("set_offset/as_offset({}) on {} return", c.off, fmt_instant(i)), p.short()),
@@ -418,7 +445,7 @@ pub fn run(env: &mut Env) {
     env.run_enum::<DtOffset, _>(n_off, move |k| {
         let off = (-86_399 + k as i32 * stride).min(86_399);
         let ii = ii.clone();
-        (0..ii.len()).map(move |j| Case { i: ii[j], off, off2: if j % 2 == 0 { 0 } else { -off } })
+        (0..ii.len()).map(move |j| Case { i: ii[j], off, off2: if j % 2 == 0 { 0 } else { -off }, local_now: if (j + off.unsigned_abs() as usize) % 7 == 3 { 1_700_000_000 + off as i64 * 1000 } else { 0 } })
     });
     env.run_enum::<TimeOffset, _>(n_off, move |k| {
         let off = (-86_399 + k as i32 * stride).min(86_399);
